@@ -381,27 +381,39 @@ func H_C18_big() {
 	unpack := func(c *ucfg.Config) (float64, string, error) {
 		switch target {
 		case 0:
-			var t struct{ N int64 `config:"n"` }
+			var t struct {
+				N int64 `config:"n"`
+			}
 			err := c.Unpack(&t)
 			return float64(t.N), strconv.FormatInt(t.N, 10), err
 		case 1:
-			var t struct{ N uint64 `config:"n"` }
+			var t struct {
+				N uint64 `config:"n"`
+			}
 			err := c.Unpack(&t)
 			return float64(t.N), strconv.FormatUint(t.N, 10), err
 		case 2:
-			var t struct{ N int32 `config:"n"` }
+			var t struct {
+				N int32 `config:"n"`
+			}
 			err := c.Unpack(&t)
 			return float64(t.N), strconv.FormatInt(int64(t.N), 10), err
 		case 3:
-			var t struct{ N float64 `config:"n"` }
+			var t struct {
+				N float64 `config:"n"`
+			}
 			err := c.Unpack(&t)
 			return t.N, "", err
 		case 4:
-			var t struct{ N uint32 `config:"n"` }
+			var t struct {
+				N uint32 `config:"n"`
+			}
 			err := c.Unpack(&t)
 			return float64(t.N), strconv.FormatUint(uint64(t.N), 10), err
 		default:
-			var t struct{ N interface{} `config:"n"` }
+			var t struct {
+				N interface{} `config:"n"`
+			}
 			err := c.Unpack(&t)
 			switch x := t.N.(type) {
 			case int64:
